@@ -15,6 +15,7 @@ from props import _engineb
 
 ID = "C11"
 LEVEL = "other"
+REPLAY = "replay/c11_native.py"      # ./check --replay of a side-check record (tools/replay_one.py)
 
 sys.path.insert(0, os.path.join(_engineb.HARNESS))
 from symharness import c11 as _plan          # noqa: E402  (NumPy only; the shim is not imported here)
@@ -101,6 +102,10 @@ def spec(tier):
             "which the package never does. " + NOT_COVERED + ". Bounds of this "
             "run: " + BOUNDS + "."),
         controls=CONTROLS, quick_controls=QUICK_CONTROLS, exhaustive=False,
+        # bounded, sampled complement on real torch for everything that goes through QR / SVD (NOT_COVERED above):
+        # replay/c11_native.py compares orthogonalize, truncate, norm/apply/expect_batch/correlations from every
+        # orthogonality centre, entropy, +, MPO.apply_to, MPO @ MPO, MPO.expect with dense linear algebra
+        native_falsifier="replay/c11_native.py",
         min_cases=dict(quick=MIN_CASES["quick"], thorough=MIN_CASES["thorough"]),
         assumptions=[
             "A1: complex128 arithmetic is read as exact complex arithmetic (rounding is not modelled; the tolerance "
